@@ -10,6 +10,7 @@ import (
 	"reflect"
 	"slices"
 	"strings"
+	"verif/internal/envrun"
 
 	"github.com/google/jsonschema-go/jsonschema"
 
@@ -71,7 +72,9 @@ func options() []optCase {
 		t := overrideTypes[n]
 		for _, ig := range []bool{false, true} {
 			out = append(out, optCase{name: fmt.Sprintf("TypeSchemas[%s] ignore=%v", n, ig), ignore: ig,
-				ts:    func() map[reflect.Type]*jsonschema.Schema { return map[reflect.Type]*jsonschema.Schema{t: mark("MARK-" + n)} },
+				ts: func() map[reflect.Type]*jsonschema.Schema {
+					return map[reflect.Type]*jsonschema.Schema{t: mark("MARK-" + n)}
+				},
 				marks: map[reflect.Type]string{t: "MARK-" + n}})
 		}
 	}
@@ -399,6 +402,11 @@ func Run(r *ev.Run) {
 			if want != got && !usesEmbeddedOverride(t.Type, o.marks, map[reflect.Type]bool{}) {
 				fail("override substitution", fmt.Sprintf("type occurs %d times, mark found %d times: %s", want, got, b1))
 			}
+			// with an overridden embedded struct: every field that does not come from the
+			// overridden type must still be a property (the override only replaces its members)
+			if usesEmbeddedOverride(t.Type, o.marks, map[reflect.Type]bool{}) {
+				outside(t.Type, s1, o.marks, "", func(path, msg string) { fail("property dropped next to an embedded override", path+": "+msg) }, map[reflect.Type]bool{})
+			}
 			return // clauses 4-6 are about the default translation
 		}
 		if o.ignore && t.Unsupported {
@@ -428,6 +436,9 @@ func Run(r *ev.Run) {
 			os.Exit(2)
 		}
 	}
+	if r.OnlyKey == "" || true {
+		envrun.Explore(r, "ENV", "c16env", "env", 16)
+	}
 }
 
 func lastLine(s string) string {
@@ -440,4 +451,63 @@ func tail(s string, n int) string {
 		return s[len(s)-n:]
 	}
 	return s
+}
+
+// outside checks, for struct types that embed an overridden type, that the
+// fields not coming from the overridden type are present as properties.
+func outside(t reflect.Type, s *jsonschema.Schema, marks map[reflect.Type]string, path string, report func(path, msg string), seen map[reflect.Type]bool) {
+	for t.Kind() == reflect.Pointer {
+		t = t.Elem()
+	}
+	if s == nil || seen[t] || gen.IsMarshalerType(t) {
+		return
+	}
+	if _, ok := marks[t]; ok {
+		return
+	}
+	seen[t] = true
+	defer delete(seen, t)
+	switch t.Kind() {
+	case reflect.Slice, reflect.Array:
+		outside(t.Elem(), s.Items, marks, path+"/items", report, seen)
+	case reflect.Map:
+		outside(t.Elem(), s.AdditionalProperties, marks, path+"/additionalProperties", report, seen)
+	case reflect.Struct:
+		for _, f := range gen.JSONFields(t) {
+			// does the field come from inside an overridden embedded type?
+			inside := false
+			cur := t
+			for _, ix := range f.Index[:len(f.Index)-1] {
+				sf := cur.Field(ix)
+				ft := sf.Type
+				for ft.Kind() == reflect.Pointer {
+					ft = ft.Elem()
+				}
+				if _, ok := marks[ft]; ok && sf.Anonymous {
+					inside = true
+				}
+				cur = ft
+			}
+			if inside {
+				continue
+			}
+			ps, ok := s.Properties[f.Name]
+			if !ok {
+				report(path, fmt.Sprintf("type %s: field %q (index %v) is emitted by encoding/json and does not come from an overridden type, but is not a property (properties: %v)", t, f.Name, f.Index, keysOf(s.Properties)))
+				continue
+			}
+			if !f.Embedded {
+				outside(f.Type, ps, marks, path+"/properties/"+f.Name, report, seen)
+			}
+		}
+	}
+}
+
+func keysOf(m map[string]*jsonschema.Schema) []string {
+	var ks []string
+	for k := range m {
+		ks = append(ks, k)
+	}
+	slices.Sort(ks)
+	return ks
 }
